@@ -53,7 +53,58 @@ package state
 //@   props C11
 //@   ensures [nonnil] result != nil
 
-// Functional option constructors (WithX / WatchWithX) consist of a single closure literal: inlined.
+// C08: the owner a write is issued under travels in a functional option. The specification functions
+// name the owner an option carries (definitional clauses); the option closures are proved to store
+// exactly that owner.
+//@ fn createOwnerOf(o CreateOption) string
+//@ fn updateOwnerOf(o UpdateOption) string
+//@ fn teardownOwnerOf(o TeardownOption) string
+//@ fn destroyOwnerOf(o DestroyOption) string
+//@ func WithCreateOwner
+//@   props C08
+//@   pure
+//@   fresh
+//@   ensures [option] result != nil
+//@   ensures [def-owner] createOwnerOf(result) == owner
+//@ func WithCreateOwner$1
+//@   props C08
+//@   requires opts != nil
+//@   modifies opts.Owner
+//@   ensures [stores-the-owner] opts.Owner == owner
+//@ func WithUpdateOwner
+//@   props C08
+//@   pure
+//@   fresh
+//@   ensures [option] result != nil
+//@   ensures [def-owner] updateOwnerOf(result) == owner
+//@ func WithUpdateOwner$1
+//@   props C08
+//@   requires opts != nil
+//@   modifies opts.Owner
+//@   ensures [stores-the-owner] opts.Owner == owner
+//@ func WithTeardownOwner
+//@   props C08
+//@   pure
+//@   fresh
+//@   ensures [option] result != nil
+//@   ensures [def-owner] teardownOwnerOf(result) == owner
+//@ func WithTeardownOwner$1
+//@   props C08
+//@   requires opts != nil
+//@   modifies opts.Owner
+//@   ensures [stores-the-owner] opts.Owner == owner
+//@ func WithDestroyOwner
+//@   props C08
+//@   pure
+//@   fresh
+//@   ensures [option] result != nil
+//@   ensures [def-owner] destroyOwnerOf(result) == owner
+//@ func WithDestroyOwner$1
+//@   props C08
+//@   requires opts != nil
+//@   modifies opts.Owner
+//@   ensures [stores-the-owner] opts.Owner == owner
+// The other functional option constructors (WithX / WatchWithX) consist of a single closure literal: inlined.
 //@ inline_matching ^pkg/state\.((With|WatchWith)\w+|Default\w+Options)$
 
 // ---------------------------------------------------------------------------
